@@ -110,13 +110,13 @@ def sem (r : Bool) : Spec → Item → Res
 def semAny (r : Bool) : List Spec → Item → Res
   | [], _ => .ok false
   | s :: rest, v =>
-    match sem r s v with
+    match pep479 (sem r s v) with
     | .ok false => semAny r rest v
     | x => x
 def semAll (r : Bool) : List Spec → Item → Res
   | [], _ => .ok true
   | s :: rest, v =>
-    match sem r s v with
+    match pep479 (sem r s v) with
     | .ok true => semAll r rest v
     | x => x
 end
@@ -211,8 +211,16 @@ def firstError (o : Obj) : List Item → Option String
   | [] => none
   | v :: rest =>
     match call names o v with
-    | .raise e => some e
+    | .raise e => some (pep479e e)         -- raised inside a generator: `StopIteration` arrives as `RuntimeError`
     | .ok _ => firstError o rest
+
+/-- the exception of the first value on which the selector raises, as raised (no generator in between) -/
+def firstRaise (o : Obj) : List Item → Option String
+  | [] => none
+  | v :: rest =>
+    match call names o v with
+    | .raise e => some e
+    | .ok _ => firstRaise o rest
 
 /-- the values before the first one on which the selector raises -/
 def beforeError (o : Obj) (vs : List Item) : List Item := vs.takeWhile (fun v => (call names o v).isOk)
@@ -223,6 +231,11 @@ end Sem
 
 /-- no path is listed in both lists -/
 def Disjoint (I E : List Path) : Prop := ∀ p, p ∈ I → p ∈ E → False
+
+/-- every sub-key of the listed keys belongs to the key alphabet `names`: only then do the index paths of
+`splitKeys` stand for the dotted strings (every unknown sub-key becomes the one index `names.length`) -/
+def KeysKnown (names : List String) (keys : List String) : Prop :=
+  ∀ key ∈ keys, key ≠ "" → ∀ sk ∈ splitDots key, sk ∈ names
 
 /-- the non-empty prefixes `p[:n]`, `n = len(p), …, 1` of a path: longest first -/
 def prefixesDesc (p : Path) : List Path := (List.range p.length).reverse.map (fun n => p.take (n + 1))
